@@ -562,3 +562,126 @@ Proof. vm_compute. split; reflexivity. Qed.
 Example C05_example_spread_lower :
   Qred (consensus_log2 [-1; 1]) = 0 /\ Qred (consensus_spread_sq [-1; 1]) = 400 # 361.
 Proof. exact spread_K_radius_lower. Qed.
+
+(* ============================================================================================== *)
+(* loop ties / function-body ties, second batch (LOOP_TIES_GUIDE.md; specs tools/fnspecs/reference_loops.py): dispatch code
+   and per-row code of cnvlib/reference.py translated on every run, each equal to the model's function *)
+From CNV Require Proofs.FnRefColumns.
+
+(* load_sample_block's gc / rmask decision per bin: the cells of the block's optional gc / rmask columns are the two
+   results of the translated `if fa_fname and (fix_rmask or fix_gc): ... elif "gc" in cnarr1 and fix_gc: ...` *)
+Theorem C05_source_ref_columns : forall fa name fix_gc fix_rmask gc_first bins i,
+  name <> ""%string ->
+  let r := Gen.FnRefColumns.fn_ref_columns (Proofs.FnRefColumns.fa_name fa name) fix_rmask fix_gc
+             (fst (Proofs.FnRefColumns.stat_at fa bins i)) (snd (Proofs.FnRefColumns.stat_at fa bins i))
+             (is_some_col gc_first) (Proofs.FnRefColumns.stored_at gc_first i) in
+  Proofs.FnRefColumns.cell (block_gc fa fix_gc fix_rmask gc_first bins) i = fst r /\
+  Proofs.FnRefColumns.cell (block_rmask fa fix_gc fix_rmask bins) i = snd r.
+Proof. exact Proofs.FnRefColumns.fn_ref_columns_eq. Qed.
+
+From CNV Require Proofs.FnRefFlatRow Proofs.FnRefBedRow.
+
+(* do_reference_flat's column code per row: log2 is the flat level, depth is np.exp2 OF THAT VALUE (spread stays 0) *)
+Theorem C05_source_flat_row : forall exp2 hap build targets antis fa (gs rs : bin -> Q),
+  let t := flat_table targets antis in
+  flat_reference exp2 hap build targets antis =
+  map (fun b => let row := Gen.FnRefFlatRow.fn_flat_row exp2 (flat_at hap build t b) fa (gs b) (rs b) in
+                mkRef (b_chrom b) (b_start b) (b_end b) (b_gene b)
+                      (Proofs.FnRefFlatRow.flat_row_log2 row) (Proofs.FnRefFlatRow.flat_row_depth row) 0) t.
+Proof. exact Proofs.FnRefFlatRow.fn_flat_row_eq. Qed.
+
+(* ... its gc / rmask columns exist exactly when a FASTA is given, and then hold the row's two FASTA statistics *)
+Theorem C05_source_flat_row_fasta : forall exp2 v fa g r,
+  snd (fst (Gen.FnRefFlatRow.fn_flat_row exp2 v fa g r)) = (if String.eqb fa "" then None else Some g) /\
+  snd (Gen.FnRefFlatRow.fn_flat_row exp2 v fa g r) = (if String.eqb fa "" then None else Some r).
+Proof. exact Proofs.FnRefFlatRow.fn_flat_row_fasta. Qed.
+
+(* bed2probes' column code per row: the spread of every row of the flat reference is the translated 0.0 *)
+Theorem C05_source_bed_row_spread : forall exp2 hap build targets antis g h r,
+  In r (flat_reference exp2 hap build targets antis) -> r_spread_sq r = qsq (snd (Gen.FnRefBedRow.fn_bed_row g h)).
+Proof. exact Proofs.FnRefBedRow.fn_bed_row_spread. Qed.
+
+Theorem C05_source_bed_row_gene : forall g h,
+  fst (fst (Gen.FnRefBedRow.fn_bed_row g h)) = (if h then g else "-"%string) /\
+  snd (fst (Gen.FnRefBedRow.fn_bed_row g h)) = 0.
+Proof. exact Proofs.FnRefBedRow.fn_bed_row_gene. Qed.
+
+From CNV Require Proofs.FnRefSexesLib Proofs.FnRefSexesInfer Proofs.FnRefSexesMerge Proofs.FnRefSexesGiven.
+
+(* the `sexes` dictionary.  infer_sexes' loop, the generated iteration folded over the files from {}: the model's
+   infer_dict (a file without rows or without a guess leaves no entry; a later file of the same sample overrides) *)
+Theorem C05_source_infer_sexes : forall files k,
+  Proofs.FnRefSexesInfer.infer_loop (fun _ => None) files k =
+  dict_get (infer_dict (map Proofs.FnRefSexesInfer.f_id files) (map Proofs.FnRefSexesInfer.f_effective files)) k.
+Proof. exact Proofs.FnRefSexesInfer.fn_infer_loop_eq. Qed.
+
+(* do_reference's merge loop, one generated iteration: an antitarget call always ends up as the sample's entry
+   ("preferring antitargets"), whatever the target call was ... *)
+Theorem C05_source_sexes_merge_step : forall sid a p,
+  Gen.FnRefSexesMerge.fn_merge_step sid (Some a) p p = Some a.
+Proof. exact Proofs.FnRefSexesMerge.fn_merge_step_some. Qed.
+
+(* ... and the loop over the antitarget calls, started from the target calls, leaves the model's sexes_inferred *)
+Theorem C05_source_sexes_inferred : forall tids tguess aids aguess k,
+  Proofs.FnRefSexesMerge.merge_loop (dict_get (infer_dict tids tguess)) (infer_dict aids aguess) k =
+  dict_get (sexes_inferred tids tguess aids aguess) k.
+Proof. exact Proofs.FnRefSexesMerge.fn_sexes_inferred_eq. Qed.
+
+(* female_samples given: the generated iteration folded over the target files leaves the model's sexes_given *)
+Theorem C05_source_sexes_given : forall female targets k,
+  Proofs.FnRefSexesGiven.given_loop female (fun _ => None) (map s_id targets) k = dict_get (sexes_given female targets) k.
+Proof. exact Proofs.FnRefSexesGiven.fn_given_loop_eq. Qed.
+
+From CNV Require Proofs.FnRefSummarize.
+
+(* summarize_info per bin (= per column of all_logr / all_depths): the model's consensus is the translated code -- log2 the
+   biweight location of the log2 column, depth that of the depth column, spread the biweight midvariance of the log2 column
+   with initial = the log2 centre (the model carries its square) *)
+Theorem C05_source_summarize : forall b col dcol (bivar : list Q -> Q -> Q),
+  let r := Gen.FnRefSummarize.fn_summarize col dcol ref_biloc bivar in
+  let c := consensus (b, col, dcol) in
+  r_log2 c = fst (fst r) /\ r_depth c = snd (fst r) /\ snd r = bivar col (r_log2 c) /\
+  r_spread_sq c = ref_bivar_sq col (r_log2 c).
+Proof. exact Proofs.FnRefSummarize.fn_summarize_eq. Qed.
+
+Theorem C05_source_summarize_spread : forall b col dcol (bivar : list Q -> Q -> Q),
+  (forall a i, qsq (bivar a i) == ref_bivar_sq a i) ->
+  r_spread_sq (consensus (b, col, dcol)) == qsq (snd (Gen.FnRefSummarize.fn_summarize col dcol ref_biloc bivar)).
+Proof. exact Proofs.FnRefSummarize.fn_summarize_spread. Qed.
+
+From CNV Require Proofs.FnRefBlock Proofs.FnRefBias.
+
+(* load_sample_block's matrices, column by column: for every bin, the generated initial lists (flat pseudo-sample first,
+   then the first file) with the generated loop iteration folded over the remaining files ARE the columns of load_block's
+   depth and log2 matrices *)
+Theorem C05_source_block_columns : forall exp2 hap build sexes skip_low files first rest bins logr depths lg i,
+  sort_samples files = first :: rest ->
+  load_block hap build sexes skip_low files = BlkOk bins logr depths ->
+  bins <> [] ->
+  let rows := sex_rows hap build (s_bins first) in
+  let rowL := fun s => nth i (sample_logr build sexes skip_low rows s) 0 in
+  let rowD := fun s => nth i (s_depth s) 0 in
+  fold_left (Proofs.FnRefBlock.block_iter exp2 rowD rowL lg) rest
+            (Gen.FnRefBlock.fn_block_init exp2 true (rowD first) lg (nth i (expect_flat hap build (s_bins first)) 0)
+                                          (rowL first)) =
+  (column depths i, column logr i).
+Proof. exact Proofs.FnRefBlock.fn_load_block_columns. Qed.
+
+(* bias_correct_logr's dispatch: with the three corrections off (the model's case) the table whose log2 is returned is the
+   centred, sex-shifted table itself ... *)
+Theorem C05_source_bias_off : forall id n_cov n_rows has_gc has_rmask by_gc by_rmask by_edge,
+  Gen.FnRefBias.fn_bias_table id n_cov n_rows has_gc has_rmask false false false by_gc by_rmask by_edge = id.
+Proof. exact Proofs.FnRefBias.fn_bias_table_off. Qed.
+
+(* ... as it is for a sample with at most half of its bins covered, whatever the flags; otherwise gc, rmask, edge run in
+   that order, each on the previous result *)
+Theorem C05_source_bias_mostly_low : forall id n_cov n_rows has_gc has_rmask fg fr fe by_gc by_rmask by_edge,
+  (n_cov <= n_rows / 2)%Z ->
+  Gen.FnRefBias.fn_bias_table id n_cov n_rows has_gc has_rmask fg fr fe by_gc by_rmask by_edge = id.
+Proof. exact Proofs.FnRefBias.fn_bias_table_mostly_low. Qed.
+
+Theorem C05_source_bias_corrections : forall id n_cov n_rows has_gc has_rmask fg fr fe by_gc by_rmask by_edge,
+  (n_rows / 2 < n_cov)%Z ->
+  Gen.FnRefBias.fn_bias_table id n_cov n_rows has_gc has_rmask fg fr fe by_gc by_rmask by_edge =
+  if fe then by_edge else if has_rmask && fr then by_rmask else if has_gc && fg then by_gc else id.
+Proof. exact Proofs.FnRefBias.fn_bias_table_corrections. Qed.
